@@ -35,6 +35,7 @@ type c17cCase struct {
 	Addr    string `json:"addr"`    // v4 | v6
 	Outcome string `json:"outcome"` // connect-error-flat | connect-error-raw | connect-error-wrapped | connect-timeout | relay-read-error | relay-write-error | relay-close-error
 	Err     string `json:"err"`     // error kind
+	Shape   string `json:"shape,omitempty"` // form in which the transport's connection (or its Connect) reports the failed operation (see c17sShapes); "" = bare
 }
 
 type c17cTransport struct {
@@ -85,9 +86,9 @@ func c17cErrno(kind string) syscall.Errno {
 }
 
 func TestVerif_C17_connecting(t *testing.T) {
-	rec := vh.NewRec("C17", "connecting", "exhaustive: {IPv4, IPv6 registrant} x outcomes of a connecting-transport registration (Connect fails with the dial error flattened into text as the DTLS transport does / as a raw OpError / wrapped / with a context deadline; Connect succeeds and the relay on that connection hits a read, write or close fault) x error kinds, through the real ingestRegistration -> handleConnectingTpReg -> Proxy; oracle: nothing the station logged contains the registrant (client) address; non-trivial = the injected error text carries the client address; distinct by case")
+	rec := vh.NewRec("C17", "connecting", "exhaustive: {IPv4, IPv6 registrant} x outcomes of a connecting-transport registration (Connect fails with the dial error flattened into text as the DTLS transport does / as a raw OpError / wrapped / with a context deadline; Connect succeeds and the relay on that connection hits a read, write or close fault) x error kinds, and the relay / raw-dial-error outcomes again with the transport reporting the failed operation in each of the forms a connection wrapper uses (wrapped; with a second cause via two %w, errors.Join, an error type with Unwrap() []error; nested), through the real ingestRegistration -> handleConnectingTpReg -> Proxy; oracle: nothing the station logged contains the registrant (client) address; non-trivial = the injected error text carries the client address; distinct by case")
 	defer rec.Flush()
-	rec.Require("error-text-carries-client-address", "outcome:connect-error-flat", "outcome:relay-read-error")
+	rec.Require("error-text-carries-client-address", "outcome:connect-error-flat", "outcome:relay-read-error", "relay:several-causes+unanticipated+carries-address", "shape:join:op-last", "shape:two-w:op-last", "shape:multi-type")
 	if vh.ReplayFile() != "" && !strings.Contains(vh.ReplayFile(), "connecting") {
 		t.Skip("replay file belongs to another sub-check")
 	}
@@ -147,7 +148,7 @@ func TestVerif_C17_connecting(t *testing.T) {
 			case "connect-error-flat-both":
 				return nil, fmt.Errorf("%v, %v", fmt.Errorf("error connecting to dtls client: %v", dialErr), errors.New("error accepting dtls connection from secret: context canceled"))
 			case "connect-error-raw":
-				return nil, dialErr
+				return nil, c17sShapeErr(c.Shape, dialErr)
 			case "connect-error-wrapped":
 				return nil, fmt.Errorf("error connecting to dtls client: %w", dialErr)
 			case "connect-timeout":
@@ -170,6 +171,9 @@ func TestVerif_C17_connecting(t *testing.T) {
 			}
 			conn = vconn.New(s)
 			conn.WaitLimit = 5 * time.Second
+			if c.Shape != "" {
+				return c17sConn{Conn: conn, shape: c.Shape}, nil
+			}
 			return conn, nil
 		}}
 		_ = e.rm.AddTransport(pb.TransportType_DTLS, tr)
@@ -188,6 +192,7 @@ func TestVerif_C17_connecting(t *testing.T) {
 		if strings.HasPrefix(c.Outcome, "relay-") {
 			probe = vconn.MkErr(c.Err, "read", &net.TCPAddr{IP: net.IPv4(10, 9, 9, 9), Port: 41245}, raddr)
 		}
+		probe = c17sShapeErr(c.Shape, probe)
 		if c.Outcome != "connect-timeout" && probe != nil {
 			for _, n := range needles {
 				if strings.Contains(probe.Error(), n) {
@@ -215,6 +220,12 @@ func TestVerif_C17_connecting(t *testing.T) {
 		if logs != "" {
 			classes = append(classes, "something-was-logged")
 		}
+		if c.Shape != "" {
+			classes = append(classes, "shape:"+c.Shape)
+			if carries && c17sShapeMulti(c.Shape) && strings.HasPrefix(c.Outcome, "relay-") && c.Err != "reset" && c.Err != "timeout" && c.Err != "epipe" {
+				classes = append(classes, "relay:several-causes+unanticipated+carries-address")
+			}
+		}
 		rec.Case(carries, vh.Digest(c), c, classes...)
 		for _, n := range needles {
 			if i := strings.Index(logs, n); i >= 0 {
@@ -227,7 +238,12 @@ func TestVerif_C17_connecting(t *testing.T) {
 				if strings.HasPrefix(c.Outcome, "relay-") {
 					site = "relay"
 				}
-				rec.Violation(t, "leak:connecting:"+site, c, "client (registrant) address appears in the station's output at the default log level: %q [outcome %s, error kind %s, %s]", strings.TrimSpace(line), c.Outcome, c.Err, c.Addr)
+				if c17sShapeMulti(c.Shape) {
+					site += ":error-with-several-causes"
+				} else if c.Shape != "" {
+					site += ":wrapped-error"
+				}
+				rec.Violation(t, "leak:connecting:"+site, c, "client (registrant) address appears in the station's output at the default log level: %q [outcome %s, error kind %s, error form %q, %s]", strings.TrimSpace(line), c.Outcome, c.Err, c.Shape, c.Addr)
 				return
 			}
 		}
@@ -256,6 +272,21 @@ func TestVerif_C17_connecting(t *testing.T) {
 				i++
 				if vh.Mine(i) {
 					run(c17cCase{Addr: addr, Outcome: oc, Err: k})
+				}
+			}
+		}
+		// the same outcomes with the transport reporting the failed operation in its own form
+		for _, sh := range c17sShapes {
+			for _, oc := range []string{"relay-read-error", "relay-read-data+error", "relay-write-error", "relay-close-error", "connect-error-raw"} {
+				kinds := []string{"enobufs", "eio", "enetdown", "reset", "timeout"}
+				if oc == "connect-error-raw" {
+					kinds = []string{"enetunreach", "eperm"}
+				}
+				for _, k := range kinds {
+					i++
+					if vh.Mine(i) {
+						run(c17cCase{Addr: addr, Outcome: oc, Err: k, Shape: sh.name})
+					}
 				}
 			}
 		}
